@@ -24,6 +24,7 @@ from mc.common import reset_frame_state, quiet
 
 ID = 'C19'
 LEVEL = 'exploration'
+PRELOAD = ['frame.geometry.geometry', 'frame.netlist.netlist', 'frame.die.die', 'frame.allocation.allocation', 'ruamel.yaml', 'mc.common', 'tools.legalfloor.legalfloor', 'tools.netgen.netgen', 'tools.floorset_parser.floor_set_manager.manager', 'tools.rect.rect_io', 'mc.netdocs', 'mc.allocbfs']
 RULE = ("producer x object sweep: (die) all valid dies with <=2 regions on a 3x3 grid, families HALF/DEC1, unrefined / split(2,4) / split(1.5,3) / initial grid; "
         "(alloc) every initial state of the C02 exploration and its successors under each refinement operation; (netgen) grid rows,cols in 1..4, chain/star/one-net n in 2..9, "
         "ring n in 3..9, ring-star n in 4..9, htree levels 1..3, grid with centres on 3 dies; (floorset) 1-3 polygon blocks x constraint flags x weights {0,0.5,1,2} x density "
